@@ -63,6 +63,7 @@ func (n *sioCouplings) Stop(context.Context) error                             {
 
 type sioRun struct {
 	delivered   int // timer messages the loop has finished processing
+	slept       int // sleeps of the requester that have ended (virtual timers of the harness itself)
 	evs         []rtimers.Ev
 	tokens      int
 	panics      []string
@@ -146,6 +147,17 @@ func (r *sioRun) firedCount() int { return r.fired }
 func (r *sioRun) noteDelivered() { r.delivered++ }
 
 //go:norace
+func (r *sioRun) noteSlept() { r.slept++ }
+
+// quiet: every timer of the code under test that went off has handed over its message and the loop has
+// finished processing it; nothing is queued or being processed
+//
+//go:norace
+func (r *sioRun) timersQuiet() bool {
+	return sched.TimersFired()-r.slept == r.fired && r.fired == r.delivered
+}
+
+//go:norace
 func (r *sioRun) deliveredCount() int { return r.delivered }
 
 func (r *sioRun) persist(js []byte) {
@@ -227,11 +239,12 @@ func runSioTimers(sc sScenario, prefix, prefixN []int) (*sched.Exec, *sioRun) {
 			return q
 		case "sleep":
 			vtime.Sleep(vtime.Duration(op.D) * vtime.Millisecond)
+			r.noteSlept() // the sleep was a virtual timer too
 		case "reported":
 			// what the host has been told: the timers machine's state as last reported.  Judged only at a
 			// message boundary with nothing in flight (a timer that has gone off but whose message the
 			// loop has not yet processed cannot be in any report yet)
-			if sched.TimersFired() != r.firedCount() || r.firedCount() != r.deliveredCount() || r.isBusy() || len(e.io.in) > 0 {
+			if !r.timersQuiet() || r.isBusy() || len(e.io.in) > 0 {
 				return nil
 			}
 			var st core.State
@@ -263,7 +276,7 @@ func runSioTimers(sc sScenario, prefix, prefixN []int) (*sched.Exec, *sioRun) {
 			// a restart at a message boundary with nothing in flight: every timer that went off has
 			// handed over its message and the loop has finished processing it (so what a host has on
 			// disk is up to date); nothing is queued or being processed
-			if sched.TimersFired() != r.firedCount() || r.firedCount() != r.deliveredCount() || r.isBusy() || len(e.io.in) > 0 {
+			if !r.timersQuiet() || r.isBusy() || len(e.io.in) > 0 {
 				r.rec(rtimers.Ev{Kind: "restart-skipped"})
 				return nil
 			}
@@ -430,6 +443,10 @@ func sioScenarios(maxReq int, thorough bool) []sScenario {
 		{{K: "make", Id: "1", D: 10}, sl, {K: "make", Id: "1", D: 10}, rep, sl, {K: "cancel", Id: "2"}, rep, restart, sl},
 		{{K: "make", Id: "1", D: 3600000}, {K: "cancel", Id: "1"}, {K: "makebad", Id: "1"}, rep, restart, rep, {K: "pending"}},
 		{{K: "make", Id: "1", D: 10}, {K: "make", Id: "2", D: 10}, sl, {K: "makebad", Id: "2"}, rep, restart, sl, rep},
+		// several timers going off between two reports
+		{{K: "make", Id: "1", D: 10}, {K: "make", Id: "2", D: 10}, sl, rep, restart, sl, rep, {K: "pending"}},
+		{{K: "make", Id: "1", D: 10}, {K: "make", Id: "2", D: 10}, {K: "make", Id: "3", D: 3600000}, sl, rep, restart, sl, rep},
+		{{K: "make", Id: "1", D: 10}, {K: "make", Id: "2", D: 12}, {K: "make", Id: "3", D: 14}, sl, rep, {K: "pending"}},
 	} {
 		out = append(out, sScenario{Req: req, Sync: true})
 	}
